@@ -24,6 +24,11 @@ static long long rp_ll(const char *name, long long def) {
 	}
 	return def;
 }
+static const char *rp_str(const char *name, const char *def) {
+	int i; size_t n = strlen(name);
+	for (i = 1; i < rp_argc; i++) if (strncmp(rp_argv[i], name, n) == 0 && rp_argv[i][n] == '=') return rp_argv[i] + n + 1;
+	return def;
+}
 static int rp_has(const char *name) {
 	int i; size_t n = strlen(name);
 	for (i = 1; i < rp_argc; i++) if (strncmp(rp_argv[i], name, n) == 0 && rp_argv[i][n] == '=') return 1;
